@@ -33,6 +33,7 @@ type seg struct {
 	Conc    int    `json:"conc,omitempty"`     // >1: issue that many allocation requests concurrently at the end of the segment
 	SetNext int    `json:"set_next,omitempty"` // administrator repositions the label counter (only uniqueness is then required)
 	Renum   int    `json:"renumber,omitempty"` // >0: renumber the target body to a caller-chosen label this far above every present label
+	SplitTo int    `json:"split_to,omitempty"` // >0: split a supervoxel of the target body naming the remain (and, if odd, the split) label this far above every present label
 }
 
 type c12Case struct {
@@ -55,6 +56,7 @@ type world struct {
 	labels     []uint64 // allocated labels in issue order
 	labelSeen  map[uint64]string
 	maxPresent uint64 // largest label stored in any version
+	splitNamed int    // split-supervoxel requests with caller-named labels that were accepted
 	adminMoved bool
 	instIDs    map[uint64]string
 	verIDs     map[uint64]string
@@ -427,6 +429,49 @@ func checkC12(c c12Case) (int, error) {
 				return restarts, w.died("settle", err)
 			}
 		}
+		if s.SplitTo > 0 && w.c.Alive() {
+			// split-supervoxel with caller-named labels (documented options remain= / split=): both become labels present in the volume
+			big := w.maxPresent + uint64(s.SplitTo)
+			if n := len(w.labels); n > 0 && w.labels[n-1] >= big {
+				big = w.labels[n-1] + uint64(s.SplitTo)
+			}
+			r, err := w.c.Do("GET", fmt.Sprintf("node/%s/lm/supervoxels/%d", w.head, w.target), nil)
+			if err != nil {
+				return restarts, w.died("supervoxels", err)
+			}
+			var svs []uint64
+			json.Unmarshal(r.Body, &svs)
+			if r.OK() && len(svs) > 0 {
+				sort.Slice(svs, func(i, j int) bool { return svs[i] < svs[j] })
+				sv := svs[s.SplitTo%len(svs)]
+				rr, err := w.c.Do("GET", fmt.Sprintf("node/%s/lm/sparsevol/%d?format=srles&supervoxels=true", w.head, sv), nil)
+				if err != nil {
+					return restarts, w.died("sparsevol", err)
+				}
+				if rr.OK() && len(rr.Body) >= 32 {
+					body := make([]byte, 12, 28)
+					body[1] = 3
+					binary.LittleEndian.PutUint32(body[8:], 1)
+					body = append(body, rr.Body[:16]...) // the first run of the supervoxel is split off
+					q := fmt.Sprintf("?remain=%d", big)
+					top := big
+					if s.SplitTo%2 == 1 {
+						q += fmt.Sprintf("&split=%d", big-1)
+					}
+					pr, err := w.c.Do("POST", fmt.Sprintf("node/%s/lm/split-supervoxel/%d%s", w.head, sv, q), body)
+					if err != nil {
+						return restarts, w.died("split-supervoxel", err)
+					}
+					if pr.OK() {
+						w.maxPresent = top
+						w.splitNamed++
+					}
+					if err := w.c.Settle(true); err != nil {
+						return restarts, w.died("settle", err)
+					}
+				}
+			}
+		}
 		if s.Ingest > 0 {
 			// write one block with a large label on the current head (mutate), settle, then allocations must exceed it
 			big := w.maxPresent + uint64(s.Ingest)
@@ -618,6 +663,9 @@ func genC12(t *rapid.T) c12Case {
 		if rapid.IntRange(0, 3).Draw(t, "renum") == 0 {
 			s.Renum = rapid.SampledFrom([]int{1, 2, 500, 1 << 20}).Draw(t, "renumby")
 		}
+		if rapid.IntRange(0, 3).Draw(t, "splitto") == 0 {
+			s.SplitTo = rapid.SampledFrom([]int{2, 3, 500, 1<<20 + 1}).Draw(t, "splitby")
+		}
 		if rapid.IntRange(0, 11).Draw(t, "admin") == 0 {
 			s.SetNext = rapid.SampledFrom([]int{3, 600, 100000}).Draw(t, "setnext")
 		}
@@ -658,6 +706,9 @@ func TestC12Restart(t *testing.T) {
 			}
 			if s.Renum > 0 {
 				cls["renumber-to-caller-chosen-label"] = true
+			}
+			if s.SplitTo > 0 {
+				cls["split-supervoxel-with-caller-named-labels"] = true
 			}
 		}
 		if stride {
